@@ -125,6 +125,16 @@ type Monitor struct {
 }
 
 func NewMonitor(id, part, level, rule string) *Monitor {
+	// bin/check runs a second, race-detector pass of some properties in the thorough tier: both
+	// passes then write evidence parts (VERIF_FORCE_PART), the second under a suffixed part name.
+	if sfx := os.Getenv("VERIF_PART_SUFFIX"); sfx != "" {
+		if part == "" {
+			part = "main"
+		}
+		part += sfx
+	} else if os.Getenv("VERIF_FORCE_PART") != "" && part == "" {
+		part = "main"
+	}
 	m := &Monitor{ID: id, Part: part, Level: level, Rule: rule,
 		start: time.Now(), distinct: map[string]struct{}{}, counters: map[string]int64{},
 		extra: map[string]any{}, known: map[string]int{}, maxSamples: 5, floor: 2, maxReports: 5}
